@@ -355,6 +355,29 @@ def run(ctx):
         ctx.check(ok, "R7.5", construct, f"does not delegate to self._op({want}, other) (found {got or norm(rets[0].value) if rets else 'no return'}): "
                   "the any-field-matches meaning of the operator is lost", fn, f"self._op({want}, other)",
                   key=f"R7.5:TypeMatcherInstance.{m}:delegation")
+    # Type.<t> ranges over EVERY field of that type: a value is left out only when an attribute along the path is missing (the sentinel)
+    vfn = prog.methods_of(tmi).get("_values")
+    if vfn is None:
+        raise AnalysisError("R7.5: TypeMatcherInstance._values not found")
+    from .. import logic as _lg7
+    from ..cfg import CFG as _CFG7
+
+    vcfg = _CFG7(vfn)
+    ys7 = [y for y in ast.walk(vfn) if isinstance(y, ast.Yield) and y.value is not None]
+    ctx.floor("R7.5", "yields in TypeMatcherInstance._values", len(ys7), 1)
+    for y in ys7:
+        yv = norm(y.value)
+        nd = vcfg.header_node_for_expr(y) or vcfg.node_of(y)
+        prem = _lg7.facts_as_premises(vcfg.facts_at(nd.id))
+        extra = []
+        for e0, p0 in prem:
+            ats = _lg7.atoms(_lg7.formula(e0))
+            for a in ats:
+                if yv in a and "NONE_OBJECT" not in a and "NoneObject" not in a:
+                    extra.append(a)
+        ctx.check(not extra, "R7.5", "TypeMatcherInstance._values:skips-only-missing", f"a field value is left out of Type.<t> depending on {sorted(set(extra))}: comparisons that are true for "
+                  "that value (e.g. `Type.string == None`, `!=`) then give the wrong answer", y, "a value is skipped only when it is the missing-attribute sentinel",
+                  key="R7.5:TypeMatcherInstance._values:extra-skip")
     for cname in ("NoneObject", "TypeMatcherInstance", "TypeMatcher", "WrappedRecord"):
         c = prog.cls(f"flow.record.selector.{cname}")
         for mname in prog.methods_of(c):
